@@ -584,7 +584,7 @@ func (f *FuncCall) Token() *lexer.Token {
 
 // Type returns the return type of the called function.
 func (f *FuncCall) Type() *Type {
-	return f.FuncDef.ReturnType
+	return fixedType(f.FuncDef.ReturnType) // a result is assignable like a variable
 }
 
 // UnaryExpression is an AST node that represents a unary expression,
